@@ -33,7 +33,10 @@ ASSUMPTIONS = [
 RULE = ("a case = a master + overlay repository pair on disk (4 eclasses living in either/both, nested inherits, 3 ebuilds), 1-3 stacked caches "
         "(md5-dict / flat mtime format, read-only or not), populated through the real write path at two different moments, with tree "
         "edits in between and after (ebuild edit/touch, eclass edit/touch/removal/move between the repositories/shadowing) and entry "
-        "tampering (INHERIT, checksum or _eclasses_ line dropped, garbled or altered); then every package's metadata is read; "
+        "tampering (INHERIT, checksum or _eclasses_ line dropped, garbled or altered); then every package's metadata is read; a few "
+        "scenarios per run use the real bash daemon, including long-lived-process histories (the repository's regen operation with "
+        "eclass preloading over a tree containing ebuilds that fail to source, then eclass edits, then reads through fresh repository "
+        "objects with the pooled processors); "
         "non-trivial = some configured cache held an entry for the package at read time")
 LEVEL_TEXT = ("Kernel-checked Lean 4 theorems about a model of validate_entry / rebuild_cache_entry / _get_metadata: validate_entry decides "
               "exactly 'records the current ebuild checksum and every recorded eclass still exists with every recorded attribute'; the cache "
@@ -77,7 +80,7 @@ class Tree:
                 for d in ([self.M, self.O] if where == "both" else [where]):
                     self.write_eclass(d, e, inh)
         for p in PKGS:
-            self.write_ebuild(p, [e for e in ECLASSES if rng.random() < 0.4])
+            self.write_ebuild(p, [e for e in ECLASSES if rng.random() < 0.4], eapi_clash=rng.random() < 0.08)
 
     def tick(self):
         self.clock += 10
@@ -94,10 +97,13 @@ class Tree:
         text = ("inherit %s\n" % " ".join(inh) if inh else "") + 'RDEPEND+=" cat/from-%s-x%d"\n' % (e, self.serial)
         write(self.eclass_path(d, e), text, self.tick())
 
-    def write_ebuild(self, p, inh):
+    def write_ebuild(self, p, inh, eapi_clash=False):
         self.serial += 1
         text = ('EAPI=7\n' + ("inherit %s\n" % " ".join(inh) if inh else "") +
                 'DESCRIPTION="package %s"\nSLOT=0\nKEYWORDS="amd64"\nRDEPEND+=" cat/own-%s-x%d"\n' % (p, p, self.serial))
+        if eapi_clash:
+            # metadata cannot be generated (EAPI set while sourcing != EAPI parsed from the file); the daemon survives this
+            text += "EAPI=6\n"
         write(self.ebuild_path(p), text, self.tick())
 
     # --- the state as the harness sees it (independent of pkgcore)
@@ -145,6 +151,8 @@ class Tree:
             src(text)
         except LookupError:
             return None
+        if len({l for l in text.split("\n") if l.startswith("EAPI=")}) > 1:
+            return None
         direct = [l.split()[1:] for l in text.split("\n") if l.startswith("inherit ")]
         return inherited, (direct[0] if direct else []), " ".join(rdep)
 
@@ -181,7 +189,7 @@ class Tree:
             self.serial += 1
             write(path, open(path).read() + 'RDEPEND+=" cat/ecl-replaced-x%d"\n' % self.serial, mtime)
         elif kind == "ebuild_inherit":
-            self.write_ebuild(p, [x for x in ECLASSES if rng.random() < 0.4])
+            self.write_ebuild(p, [x for x in ECLASSES if rng.random() < 0.4], eapi_clash=rng.random() < 0.1)
         elif kind == "eclass_edit" and (inO or inM):
             path = self.eclass_lookup(e)
             write(path, open(path).read() + 'RDEPEND+=" cat/ecl-edit-x%d"\n' % self.tick(), self.tick())
@@ -240,6 +248,8 @@ class StandInProcessor:
         src(text)
         keys = {"EAPI": "7", "SLOT": "0", "KEYWORDS": "amd64", "DEFINED_PHASES": "-", "RDEPEND": " ".join(rdep)}
         for line in text.split("\n"):
+            if line.startswith("EAPI="):
+                keys["EAPI"] = line[5:]
             if line.startswith("DESCRIPTION="):
                 keys["DESCRIPTION"] = line.split('"')[1]
             if line.startswith("inherit "):
@@ -642,7 +652,7 @@ def corpus(ctx, rng):
             t.close()
 
 
-def daemon_layer(ctx, rng, n):
+def daemon_layer(ctx, rng, n, regen_histories=1):
     """the same flow with the real bash daemon doing the sourcing, through the public package attributes"""
     from pkgcore.ebuild import processor
     try:
@@ -678,8 +688,83 @@ def daemon_layer(ctx, rng, n):
             processor.release_ebuild_processor(ebp)
         except Exception:
             pass
-    for i in range(n):
-        scenario(ctx, rng, f"daemon:{ctx.seed}:{i}", real_daemon=True)
+    try:
+        for i in range(n):
+            scenario(ctx, rng, f"daemon:{ctx.seed}:{i}", real_daemon=True)
+        for i in range(regen_histories):
+            regen_history(ctx, rng, f"regen:{ctx.seed}:{i}")
+    finally:
+        kill_pooled_processors()
+
+
+def kill_pooled_processors():
+    """do not leave bash daemons (possibly wedged ones) to the interpreter's exit handlers"""
+    from pkgcore.ebuild import processor
+    for lst in (processor.inactive_ebp_list, processor.active_ebp_list):
+        while lst:
+            try:
+                lst.pop().shutdown_processor(force=True)
+            except Exception:
+                pass
+
+
+class _Quiet:
+    """observer for the regen operation"""
+    verbosity = 0
+
+    def __getattr__(self, name):
+        return lambda *a, **kw: None
+
+
+def regen_history(ctx, rng, label):
+    """one long-lived process: the repository's regen operation fills the cache (eclass preloading on, some ebuilds fail to
+    source -- some fatally for the daemon, some not), then the tree is edited, then every package is read through fresh
+    repository objects, with whatever ebuild processors the process has pooled by then"""
+    import gc
+    tree = Tree(rng)
+    try:
+        # make sure the interesting ingredients are present: an eclass everybody can inherit, a non-fatal sourcing failure
+        base = rng.choice(ECLASSES)
+        tree.write_eclass(tree.M, base, [])
+        for e in ECLASSES:
+            if e != base and tree.eclass_lookup(e) is None and rng.random() < 0.7:
+                tree.write_eclass(rng.choice([tree.M, tree.O]), e, [base] if rng.random() < 0.5 else [])
+        order = list(PKGS)
+        rng.shuffle(order)
+        tree.write_ebuild(order[0], [base], eapi_clash=True)
+        for p in order[1:]:
+            tree.write_ebuild(p, uniq_list([base] + [e for e in ECLASSES if rng.random() < 0.3 and tree.eclass_lookup(e)]))
+        spec = {"fmt": "md5", "root": tree.O, "readonly": False}
+        edits = ["regen_operation"]
+        repo = open_repo(tree, [make_cache(spec, False)])
+        try:
+            repo.operations.regen_cache(observer=_Quiet())
+        except Exception as e:
+            ctx.violation({"label": label, "edits": edits, "ebuilds": {p: open(tree.ebuild_path(p)).read() for p in PKGS},
+                           "eclasses": {e_: (open(tree.eclass_lookup(e_)).read() if tree.eclass_lookup(e_) else None) for e_ in ECLASSES}},
+                          f"the regen operation over this tree raised {type(e).__name__}: {e} -- metadata could not be regenerated "
+                          "(ebuilds that fail to source must only be reported)")
+            return
+        del repo
+        gc.collect()
+        for rnd in range(2):
+            # an edit of the shared eclass (so every cached entry goes stale), plus whatever else
+            path = tree.eclass_lookup(base)
+            write(path, open(path).read() + 'RDEPEND+=" cat/regen-edit-x%d"\n' % tree.tick(), tree.tick())
+            edits = edits + ["eclass_edit"]
+            if rng.random() < 0.5:
+                edits.append(tree.edit())
+            read_all(ctx, tree, [spec], None, f"{label}:round{rnd}", list(edits), real_daemon=True)
+    finally:
+        tree.close()
+
+
+def uniq_list(seq):
+    out = []
+    for x in seq:
+        if x not in out:
+            out.append(x)
+    return out
 
 
 def run(ctx):
@@ -692,5 +777,5 @@ def run(ctx):
         if len(PENDING) >= 3000:
             judge(ctx)
     judge(ctx)
-    daemon_layer(ctx, rng, ctx.n(2, 30))
+    daemon_layer(ctx, rng, ctx.n(0, 30), regen_histories=ctx.n(1, 8))
     judge(ctx)
